@@ -20,7 +20,7 @@ from vf.core import CaseResult, Ctx, Violation, hyp_run, exc_sig
 
 PROP_ID = 'C37'
 LEVEL = 'exploration'
-BUDGET = {'quick': 3200, 'thorough': 120000}
+BUDGET = {'quick': 2400, 'thorough': 100000}
 RULE = (
     'Hypothesis draws 1-4 "KEY=<python literal text>" pairs from a literal '
     'grammar: ints (decimal, signed, hex/octal/binary, underscores, 30-5000 '
